@@ -80,7 +80,10 @@ theorem adjust_valid (c : Color α) (f : α) :
    fromHsla_valid _ _ _ _, fromHsla_valid _ _ _ _⟩
 
 /-- Compositing yields a valid colour. -/
-theorem composite_valid (b s : Color α) : Valid (composite b s) := fromRgba8_valid _ _ _ _
+theorem composite_valid (b s : Color α) : Valid (composite b s) := by
+  unfold composite
+  simp only []
+  split <;> exact fromRgba8_valid _ _ _ _
 
 end order
 
